@@ -181,7 +181,7 @@ def run(ctx):
 
     # ---- group addressing: a nested-name path is resolved level by level among DIRECT children (get_group and get_or_add_group agree)
     ctx.rule('R18.5', 'Document.get_group / get_or_add_group resolve each name among the direct children of the previous group; '
-                      'a missing level is created under the group reached so far', 1)
+                      'a missing level is created under the group reached so far; with duplicate sibling names both pick the same group', 2)
     fgg = mdl.func('document.Document.get_or_add_group')
 
     def th_grp(it):
@@ -220,6 +220,30 @@ def run(ctx):
             probs.append('get_or_add_group does not create the missing group under the root (%d elements created)' % len(made))
         return not probs, '; '.join(probs)
     ob('R18.5').run(fgg, 'nested group names are resolved among direct children', th_grp, judge_grp)
+
+    # duplicate sibling names: the reader (get_group) and the writer's lookup (get_or_add_group, used by add_path) pick the same group
+    def th_dup(it):
+        first = Elem('g', {'id': 'layer'})
+        second = Elem('g', {'id': 'layer'})
+        third = Elem('g', {'id': 'other'}, [Elem('g', {'id': 'layer'})])
+        root_e = Elem('svg', {}, [first, second, third])
+        cache = {}
+        root = _wrap(it, root_e, cache)
+        it.ext_hooks['xml.etree.ElementTree.SubElement'] = lambda it2, a, k: Opaque('created')
+        doc = it.new_obj('document.Document')
+        doc.attrs['tree'] = stub('tree', getroot=lambda it2, a, k: root, iter=lambda it2, a, k: [_wrap(it2, x, cache) for x in __import__('checks.c17', fromlist=['_all'])._all(root_e)])
+        a = it.call_method(doc, 'get_group', ['layer'])
+        b = it.call_method(doc, 'get_or_add_group', ['layer'])
+        return a, b, _wrap(it, first, cache), _wrap(it, second, cache)
+
+    def judge_dup(v):
+        a, b, first, second = v
+        if a is not b:
+            which = lambda x: 'the first' if x is first else ('the second' if x is second else 'another element')
+            return False, ("with two sibling groups of the same name get_group returns %s and get_or_add_group %s: a path added to ['layer'] "
+                           "is not found by paths_from_group(['layer'])" % (which(a), which(b)))
+        return True, ''
+    ob('R18.5').run(mdl.func('document.Document.get_group'), 'duplicate sibling names: get_group and get_or_add_group agree', th_dup, judge_dup)
 
     # ================================================================= readers
     # ---- svg2paths
